@@ -95,6 +95,9 @@ type WatchPlan struct {
 	// Pipe: Delay is a transit time counted from the moment the entry was produced (entries overlap in transit);
 	// otherwise each entry is delayed after the previous one has been delivered (a slow consumer)
 	Pipe bool `json:"pipe,omitempty"`
+	// Stall: the goroutine that handles a delivered entry is descheduled when it first looks at the entry's value, for
+	// this long or until its instance's claim changes, whichever comes first
+	Stall int64 `json:"stall_ns,omitempty"`
 }
 
 type Action struct {
